@@ -319,7 +319,7 @@ TIMEOUTS = {'explore': 3000}
 
 def plan(ctx):
   th = ctx.tier == 'thorough'
-  depth = 4 if th else 3
+  depth = 5 if th else 3
   ctx.rule = ('BFS to depth %d over {slice(start,stop) with start,stop in {None} u U (35), subset (4 id sets, one outside '
               'most views), preprocess_client x2, preprocess_batch x2} from 4 roots (in-memory, SQLite, Subset over each); '
               'canonical key = (effective start, stop, id set, client tags, batch tags) which is exactly the state each '
